@@ -18,11 +18,25 @@ RECURSIVE Bijections(_, _)
 Bijections(A, B) == IF A = {} THEN { << >> }
                     ELSE LET a == CHOOSE a \in A : TRUE IN
                          UNION { { [x \in A |-> IF x = a THEN b ELSE g[x]] : g \in Bijections(A \ {a}, B \ {b}) } : b \in B }
-Isomorphic(D1, D2) ==
-  LET N1 == {NormQ(q) : q \in D1}  N2 == {NormQ(q) : q \in D2}
-      B1 == BnodesOf(N1)  B2 == BnodesOf(N2) IN
+\* signature of a blank node: the quads it occurs in, with itself marked and every other blank node blanked out.
+\* A bijection can only map a node to a node with the same signature: this prunes the search without changing its result.
+RECURSIVE MarkT(_, _)
+MarkT(t, self) == IF t.k = "bnode" THEN [k |-> "bnode", v |-> IF t.v = self THEN <<1>> ELSE <<0>>]
+                  ELSE IF t.k = "triple" THEN [k |-> "triple", s |-> MarkT(t.s, self), p |-> MarkT(t.p, self), o |-> MarkT(t.o, self)]
+                  ELSE t
+SigOf(D, b) == { <<MarkT(q[1], b), MarkT(q[2], b), MarkT(q[3], b), MarkT(q[4], b)>> :
+                 q \in {x \in D : b \in BnodesOfTerm(x[1]) \cup BnodesOfTerm(x[2]) \cup BnodesOfTerm(x[3]) \cup BnodesOfTerm(x[4])} }
+RECURSIVE BijSig(_, _, _, _)
+BijSig(A, B, sa, sb) == IF A = {} THEN { << >> }
+                        ELSE LET a == CHOOSE a \in A : TRUE IN
+                             UNION { { [x \in A |-> IF x = a THEN b ELSE g[x]] : g \in BijSig(A \ {a}, B \ {b}, sa, sb) } : b \in {y \in B : sb[y] = sa[a]} }
+IsoOf(N1, N2) ==
+  LET B1 == BnodesOf(N1)  B2 == BnodesOf(N2) IN
   /\ Cardinality(N1) = Cardinality(N2) /\ Cardinality(B1) = Cardinality(B2)
-  /\ \E f \in Bijections(B1, B2) : RenD(N1, f) = N2
+  /\ LET sa == [b \in B1 |-> SigOf(N1, b)]  sb == [b \in B2 |-> SigOf(N2, b)] IN
+     /\ {sa[b] : b \in B1} = {sb[b] : b \in B2}
+     /\ \E f \in BijSig(B1, B2, sa, sb) : RenD(N1, f) = N2
+Isomorphic(D1, D2) == IsoOf({NormQ(q) : q \in D1}, {NormQ(q) : q \in D2})
 Blank == <<>>
 Blanked(D) == LET one == [b \in BnodesOf(D) |-> Blank] IN
               \* as a bag: count per blanked quad
@@ -34,8 +48,5 @@ MustBeFalse(D1, D2) == LET N1 == {NormQ(q) : q \in D1}  N2 == {NormQ(q) : q \in 
    \/ Cardinality(BnodesOf(N1)) # Cardinality(BnodesOf(N2))
    \/ Blanked(D1) # Blanked(D2)
 \* literal variant (language tags compared as written): what canonical N-Quads can distinguish (C05)
-IsomorphicExact(D1, D2) ==
-  LET B1 == BnodesOf(D1)  B2 == BnodesOf(D2) IN
-  /\ Cardinality(D1) = Cardinality(D2) /\ Cardinality(B1) = Cardinality(B2)
-  /\ \E f \in Bijections(B1, B2) : RenD(D1, f) = D2
+IsomorphicExact(D1, D2) == IsoOf(D1, D2)
 ====
